@@ -117,6 +117,18 @@ func (e *Eng) execCallInner(fr *Frame, ins ssa.Instruction, c *ssa.CallCommon, f
 		}
 	}
 	e.siteAsserts(fr, "call", name, pos, st, g, amap)
+	if sf, own := fr.specFrame(); sf != nil && own {
+		for _, s := range sf.fspec.Sites {
+			if s.Kind == "call" && s.Callee == name && s.Later != "" && (s.Ordinal == 0 || s.Ordinal == e.siteOrdinal(sf, "call", name)) {
+				if cv := amap[s.Later]; cv != nil && cv.Clo != nil {
+					e.siteHit(s)
+					e.simulateLater(fr, cv.Clo, st, g, pos)
+				} else {
+					e.errf("later %s at %s: the argument is not a closure literal", s.Later, name)
+				}
+			}
+		}
+	}
 
 	if c.IsInvoke() {
 		e.oblige("nil", descr(c.Value, 0)+"."+c.Method.Name(), e.safety(fr), pos, g, not(eq(fnv.T, "0")))
@@ -695,7 +707,7 @@ func (e *Eng) siteAsserts(fr0 *Frame, kind, name string, pos token.Pos, st *Stat
 		return
 	}
 	for _, s := range fr.fspec.Sites {
-		if s.Kind != kind || s.Callee != name || s.SetGhost != "" || s.After || s.Iter {
+		if s.Kind != kind || s.Callee != name || s.SetGhost != "" || s.After || s.Iter || s.Later != "" {
 			continue
 		}
 		if s.Ordinal != 0 && (!own || s.Ordinal != e.siteOrdinal(fr, kind, name)) {
@@ -757,6 +769,10 @@ func (e *Eng) lockOp(fr *Frame, op string, recv *Val, st *State, g string, pos t
 		} else {
 			st.held[key] = "R"
 		}
+		if st.heldBase == nil {
+			st.heldBase = map[string]*Val{}
+		}
+		st.heldBase[key] = base
 		if rs := e.rootSpec(); rs != nil && rs.Monitor == key && st.monOld == nil && len(e.inlineStack) == 0 {
 			st.monOld = st.clone()
 			// per-path record of the state right after acquisition (paths that never lock fall back to the entry state)
@@ -1153,7 +1169,7 @@ func (e *Eng) siteLemmasAfter(fr0 *Frame, kind, name string, pos token.Pos, st *
 		return
 	}
 	for _, s := range fr.fspec.Sites {
-		if s.Kind != kind || s.Callee != name || !s.After {
+		if s.Kind != kind || s.Callee != name || !s.After || s.Later != "" {
 			continue
 		}
 		if s.Ordinal != 0 && (!own || s.Ordinal != e.siteOrdinal(fr, kind, name)) {
@@ -1230,4 +1246,40 @@ func (e *Eng) preProps(fr *Frame, rq *Clause) []string {
 		return rq.Props
 	}
 	return e.safety(fr)
+}
+
+// simulateLater: a closure handed to the callee here (a timer callback) runs at some later time, after every lock held
+// now has been released and other goroutines have moved the protected state on (within the lock invariants and the
+// rely conditions). Its body is executed once from such a state, with the values it really captured, under a fresh
+// guard; the state it leaves is discarded. Its obligations (safety, lock invariants at its own releases, and the
+// site clauses of the enclosing function, which follow the code into it) are checked there.
+func (e *Eng) simulateLater(fr *Frame, clo *Closure, st *State, g string, pos token.Pos) {
+	if len(e.inlineStack) >= e.maxInline+2 {
+		return
+	}
+	st2 := st.clone()
+	for _, key := range sortedKeys(st2.held) {
+		ls := e.spec.Locks[key]
+		base := st2.heldBase[key]
+		delete(st2.held, key)
+		if ls != nil && base != nil {
+			e.havocProtected(st2, ls)
+			e.assumeLockInvs(ls, base, st2, g)
+		}
+	}
+	e.relyStepAll(st2)
+	later := e.sc.havoc("later", "Bool")
+	var args []*Val
+	for _, p := range clo.Fn.Params {
+		args = append(args, e.havocVal(st2, "later_"+p.Name(), p.Type()))
+	}
+	e.inlineStack = append(e.inlineStack, clo.Fn)
+	e.sc.comment("callback run later: " + fnKey(clo.Fn))
+	e.pendingUp = fr
+	savedExit := e.atRootExit
+	e.atRootExit = false
+	e.execFunc(clo.Fn, args, clo.Bindings, st2, and(g, later), fr.depth+1, nil, e.namePrefix+"later:"+fnKey(clo.Fn)+"/")
+	e.atRootExit = savedExit
+	e.inlineStack = e.inlineStack[:len(e.inlineStack)-1]
+	e.sc.comment("end callback " + fnKey(clo.Fn))
 }
